@@ -25,3 +25,173 @@ package gohbase
 
 //@ func gohbase.(*client).Increment
 //@   panics never[C11]
+
+// ---- SendBatch: positional, self-consistent results (C07); each call once, retry only retryable classes (C12) ----
+
+// every call of the slice has a slot in results, and distinct calls have distinct slots
+//@ pred gohbase.idxOK(rpcs, results, rpcToRes) = forall(k, 0 <= k && k < len(rpcs), rpcs[k] != nil && haskey(rpcToRes, rpcs[k]) && 0 <= rpcToRes[rpcs[k]] && rpcToRes[rpcs[k]] < len(results))
+//@ pred gohbase.idxInj(rpcs, rpcToRes) = forall(p, q, 0 <= p && p < q && q < len(rpcs), rpcToRes[rpcs[p]] != rpcToRes[rpcs[q]])
+//@ pred gohbase.retryClass(e) = typeis(e, "region.RetryableError") || typeis(e, "region.ServerError") || typeis(e, "region.NotServingRegionError")
+
+//@ func gohbase.(*client).handleResultError
+//@   trusted "frame abstraction: its effects on the region / connection caches are summarised as the ghost X.regionstate (it does not touch batch results)"
+//@   modifies X.regionstate
+
+//@ pred gohbase.wfcFrame(rpcs, results, rpcToRes, n) = forall(j, 0 <= j && j < len(results) && forall(k, 0 <= k && k < n, rpcToRes[rpcs[k]] != j), results[j].Msg == old(results[j].Msg) && results[j].Error == old(results[j].Error))
+//@ pred gohbase.wfcOK(rpcs, results, rpcToRes, n) = forall(k, 0 <= k && k < n, results[rpcToRes[rpcs[k]]].Error == nil)
+//@ pred gohbase.wfcRecvd(rpcs, results, rpcToRes, n) = forall(k, 0 <= k && k < n, results[rpcToRes[rpcs[k]]].Error == nil ==> recvd(rpcs[k].ResultChan(), results[rpcToRes[rpcs[k]]]))
+//@ pred gohbase.wfcRetry(rpcs, results, rpcToRes, retryables, n) = forall(p, 0 <= p && p < len(retryables), exists(k, 0 <= k && k < n && retryables[p] == rpcs[k] && retryClass(results[rpcToRes[rpcs[k]]].Error)))
+// a call of the first n whose slot holds an error and that was not collected for retry sets the flag
+//@ pred gohbase.wfcUnretry(rpcs, results, rpcToRes, n, flag) = forall(k, 0 <= k && k < n && results[rpcToRes[rpcs[k]]].Error != nil && ghostat("retrymark", rpcs[k]) != ghost("round"), flag)
+//@ pred gohbase.sameCalls(rpcs) = forall(k, 0 <= k && k < len(rpcs), rpcs[k] == old(rpcs[k]))
+
+// retrymark[call] == round  <=>  the call has been collected for retry in the current SendBatch round (ghost)
+//@ pred gohbase.marksMonotone() = forall(c, (ghostold("retrymark", c) == ghost("round") ==> ghostat("retrymark", c) == ghost("round")) && (ghostat("retrymark", c) == ghostold("retrymark", c) || ghostat("retrymark", c) == ghost("round")))
+//@ pred gohbase.allMarked(retryables) = forall(p, 0 <= p && p < len(retryables), ghostat("retrymark", retryables[p]) == ghost("round") && ghostold("retrymark", retryables[p]) != ghost("round"))
+//@ pred gohbase.distinctCalls(s) = forall(p, q, 0 <= p && p < q && q < len(s), s[p] != s[q])
+
+//@ func gohbase.(*client).waitForCompletion
+//@   requires idxOK(rpcs, results, rpcToRes) && idxInj(rpcs, rpcToRes)
+//@   requires forall(k, 0 <= k && k < len(rpcs), ghostat("retrymark", rpcs[k]) != ghost("round"))
+//@   modifies contents(results), X.regionstate, X.ctxdone, X.retrymark
+//@   at call append#1 ghost retrymark[rpc] == ghost("round")
+//@   at call append#2 ghost retrymark[rpc] == ghost("round")
+//@   ensures[C12] marksMonotone() && allMarked(retryables) && distinctCalls(retryables)
+//@   ensures[C07] wfcUnretry(rpcs, results, rpcToRes, len(rpcs), unretryableError || ghostat("ctxdone", ctx) == 1)
+//@   ensures[C07] forall(p, 0 <= p && p < len(retryables), results[rpcToRes[retryables[p]]].Error != nil)
+//@   loop 1 invariant wfcUnretry(rpcs, results, rpcToRes, i, unretryableError)
+//@   loop 1 exit-assert wfcUnretry(rpcs, results, rpcToRes, canceledIndex, unretryableError)
+//@   loop 2 invariant wfcUnretry(rpcs, results, rpcToRes, canceledIndex, unretryableError)
+//@   loop 1 invariant forall(p, 0 <= p && p < len(retryables), haskey(rpcToRes, retryables[p]) && results[rpcToRes[retryables[p]]].Error != nil && exists(k, 0 <= k && k < i && retryables[p] == rpcs[k]))
+//@   loop 1 exit-assert forall(p, 0 <= p && p < len(retryables), haskey(rpcToRes, retryables[p]) && results[rpcToRes[retryables[p]]].Error != nil && exists(k, 0 <= k && k < canceledIndex && retryables[p] == rpcs[k]))
+//@   loop 2 invariant forall(p, 0 <= p && p < len(retryables), haskey(rpcToRes, retryables[p]) && results[rpcToRes[retryables[p]]].Error != nil && exists(k, 0 <= k && k < canceledIndex && retryables[p] == rpcs[k]))
+//@   ensures[C12] forall(p, 0 <= p && p < len(retryables), retryables[p] != nil)
+//@   loop 1 invariant marksMonotone() && allMarked(retryables) && distinctCalls(retryables)
+//@   loop 1 invariant forall(k, i <= k && k < len(rpcs), ghostat("retrymark", rpcs[k]) != ghost("round"))
+//@   loop 1 invariant forall(p, 0 <= p && p < len(retryables), retryables[p] != nil)
+//@   loop 1 exit-assert marksMonotone() && allMarked(retryables) && distinctCalls(retryables)
+//@   loop 1 exit-assert forall(p, 0 <= p && p < len(retryables), retryables[p] != nil)
+//@   panics never[C07]
+//@   ensures[C07] wfcFrame(rpcs, results, rpcToRes, len(rpcs))
+//@   ensures[C07] ok == wfcOK(rpcs, results, rpcToRes, len(rpcs))
+//@   ensures[C07] wfcRecvd(rpcs, results, rpcToRes, len(rpcs))
+//@   ensures[C12] wfcRetry(rpcs, results, rpcToRes, retryables, len(rpcs))
+//@   loop 1 invariant canceledIndex == len(rpcs) && sameCalls(rpcs)
+//@   loop 1 invariant wfcFrame(rpcs, results, rpcToRes, i)
+//@   loop 1 invariant ok == wfcOK(rpcs, results, rpcToRes, i)
+//@   loop 1 invariant wfcRecvd(rpcs, results, rpcToRes, i)
+//@   loop 1 invariant wfcRetry(rpcs, results, rpcToRes, retryables, i)
+//@   loop 1 exit-assert 0 <= canceledIndex && canceledIndex <= len(rpcs) && sameCalls(rpcs)
+//@   loop 1 exit-assert canceledIndex < len(rpcs) ==> ghostat("ctxdone", ctx) == 1
+//@   loop 1 exit-assert wfcFrame(rpcs, results, rpcToRes, canceledIndex)
+//@   loop 1 exit-assert ok == wfcOK(rpcs, results, rpcToRes, canceledIndex)
+//@   loop 1 exit-assert wfcRecvd(rpcs, results, rpcToRes, canceledIndex)
+//@   loop 1 exit-assert wfcRetry(rpcs, results, rpcToRes, retryables, canceledIndex)
+//@   loop 2 invariant 0 <= canceledIndex && canceledIndex <= len(rpcs) && sameCalls(rpcs)
+//@   loop 2 invariant canceledIndex < len(rpcs) ==> ghostat("ctxdone", ctx) == 1
+//@   loop 2 invariant wfcFrame(rpcs, results, rpcToRes, canceledIndex + idx2)
+//@   loop 2 invariant ok == wfcOK(rpcs, results, rpcToRes, canceledIndex + idx2)
+//@   loop 2 invariant wfcRecvd(rpcs, results, rpcToRes, canceledIndex + idx2)
+//@   loop 2 invariant wfcRetry(rpcs, results, rpcToRes, retryables, canceledIndex)
+
+//@ func hrpc.RegionClient.QueueBatch(ctx, rpcs)
+//@   modifies X.queued
+//@   ensures ghost("queued") == old(ghost("queued")) + 1
+
+//@ func gohbase.(*client).getRegionAndClientForRPC
+//@   trusted "frame abstraction: cache and region state summarised as ghost X.regionstate; a nil error comes with a non-nil client (see C09 for the body)"
+//@   requires rpc != nil
+//@   modifies X.regionstate, X.ctxdone, X.callregion
+//@   ensures r1 == nil ==> r0 != nil
+
+// Ghost witnesses of the grouping computed by findClients: grppos[rc][p] is the position in batch of the p-th call of
+// the group of connection rc; grpof[k] is the connection of the call at position k.
+//@ pred gohbase.groupsOK(byClient, batch, n) = forall(rc, p, haskey(byClient, rc) && 0 <= p && p < len(byClient[rc]), \
+//@     0 <= ghostat2("grppos", rc, p) && ghostat2("grppos", rc, p) < n && byClient[rc][p] == batch[ghostat2("grppos", rc, p)] && ghostat("grpof", ghostat2("grppos", rc, p)) == rc)
+//@ pred gohbase.groupsOrdered(byClient) = forall(rc, p, q, haskey(byClient, rc) && 0 <= p && p < q && q < len(byClient[rc]), ghostat2("grppos", rc, p) < ghostat2("grppos", rc, q))
+
+// every located call sits in the group of its connection (at position grpidx[k])
+//@ pred gohbase.groupsCover(byClient, batch, n) = forall(k, 0 <= k && k < n, haskey(byClient, ghostat("grpof", k)) && 0 <= ghostat("grpidx", k) && ghostat("grpidx", k) < len(byClient[ghostat("grpof", k)]) && byClient[ghostat("grpof", k)][ghostat("grpidx", k)] == batch[k])
+
+//@ func gohbase.(*client).findClients
+//@   requires len(res) >= len(batch) && forall(k, 0 <= k && k < len(batch), batch[k] != nil)
+//@   modifies contents(res), X.regionstate, X.ctxdone, X.callregion, X.grppos, X.grpof, X.grpidx
+//@   panics never[C07]
+//@   ensures[C07] forall(k, 0 <= k && k < len(batch), res[k].Msg == old(res[k].Msg) && (res[k].Error == old(res[k].Error) || res[k].Error != nil))
+//@   ensures[C07] forall(j, len(batch) <= j && j < len(res), res[j].Msg == old(res[j].Msg) && res[j].Error == old(res[j].Error))
+//@   ensures[C12] r0 != nil && groupsOK(r0, batch, len(batch)) && groupsOrdered(r0)
+//@   at call append#1 ghost grppos[rc][len(rpcByClient[rc])] == i
+//@   at call append#1 ghost grpof[i] == rc
+//@   at call append#1 ghost grpidx[i] == len(rpcByClient[rc])
+//@   ensures[C12] r1 ==> groupsCover(r0, batch, len(batch))
+//@   ensures[C12] forall(rc, haskey(r0, rc) ==> allocated(r0[rc]) && rc != nil)
+//@   loop 1 invariant ok ==> groupsCover(rpcByClient, batch, i)
+//@   loop 1 invariant forall(rc, haskey(rpcByClient, rc) ==> rc != nil)
+//@   loop 1 invariant rpcByClient != nil && forall(k, 0 <= k && k < len(batch), batch[k] == old(batch[k]))
+//@   loop 1 invariant forall(k, 0 <= k && k < len(batch), res[k].Msg == old(res[k].Msg) && (res[k].Error == old(res[k].Error) || res[k].Error != nil))
+//@   loop 1 invariant forall(j, len(batch) <= j && j < len(res), res[j].Msg == old(res[j].Msg) && res[j].Error == old(res[j].Error))
+//@   loop 1 invariant groupsOK(rpcByClient, batch, i) && groupsOrdered(rpcByClient)
+//@   loop 1 invariant forall(rc, haskey(rpcByClient, rc) ==> allocated(rpcByClient[rc]))
+
+//@ func hrpc.CanBatch
+//@   modifies nothing
+
+// orig = the batch as passed by the caller; rpcToRes maps every original call to its position
+//@ pred gohbase.sbOrig(orig, rpcToRes, n) = len(orig) == n && forall(j, 0 <= j && j < n, orig[j] != nil && haskey(rpcToRes, orig[j]) && rpcToRes[orig[j]] == j)
+// cur (the calls of the current round) are distinct original calls
+//@ pred gohbase.sbCur(cur, orig, rpcToRes, n) = distinctCalls(cur) && forall(k, 0 <= k && k < len(cur), cur[k] != nil && haskey(rpcToRes, cur[k]) && 0 <= rpcToRes[cur[k]] && rpcToRes[cur[k]] < n && cur[k] == orig[rpcToRes[cur[k]]])
+//@ pred gohbase.notIn(cur, rpcToRes, j) = forall(k, 0 <= k && k < len(cur), rpcToRes[cur[k]] != j)
+// a nil-error slot holds the response received from its own call, and that call is not sent again
+//@ pred gohbase.sbDone(res, cur, orig, rpcToRes, n) = forall(j, 0 <= j && j < n && res[j].Error == nil, notIn(cur, rpcToRes, j) && recvd(orig[j].ResultChan(), res[j]))
+//@ pred gohbase.sbSeen(res, cur, rpcToRes, n, seen) = forall(j, 0 <= j && j < n && res[j].Error != nil && notIn(cur, rpcToRes, j), seen)
+//@ pred gohbase.marksBelow() = forall(c, ghostat("retrymark", c) <= ghost("round"))
+//@ pred gohbase.sbOwn(res, orig, n) = forall(j, 0 <= j && j < n, res[j].Error != nil || recvd(orig[j].ResultChan(), res[j]))
+// slots of calls that are not part of the round (cur = the round's batch as it was at the head of the round) are not touched
+//@ pred gohbase.sbFrame(res, hb, rpcToRes, n) = forall(j, 0 <= j && j < n && notIn(hb, rpcToRes, j), res[j].Msg == athead("for", res[j].Msg) && res[j].Error == athead("for", res[j].Error))
+
+// cAndRs lists each group of rpcByClient once
+//@ pred gohbase.carOK(cAndRs, rpcByClient) = forall(t, 0 <= t && t < len(cAndRs), haskey(rpcByClient, cAndRs[t].client) && sameslice(cAndRs[t].rpcs, rpcByClient[cAndRs[t].client])) && forall(t, u, 0 <= t && t < u && u < len(cAndRs), cAndRs[t].client != cAndRs[u].client)
+// the slots of the first t groups: nil error if the flag still says so; retries collected so far are original calls with an error in their slot
+//@ pred gohbase.doneGroups(cAndRs, res, rpcToRes, t, allOK) = allOK ==> forall(u, p, 0 <= u && u < t && 0 <= p && p < len(cAndRs[u].rpcs), res[rpcToRes[cAndRs[u].rpcs[p]]].Error == nil)
+//@ pred gohbase.retriesOK(retries, res, orig, rpcToRes, n) = distinctCalls(retries) && forall(r, 0 <= r && r < len(retries), retries[r] != nil && haskey(rpcToRes, retries[r]) && 0 <= rpcToRes[retries[r]] && rpcToRes[retries[r]] < n && retries[r] == orig[rpcToRes[retries[r]]] && res[rpcToRes[retries[r]]].Error != nil && ghostat("retrymark", retries[r]) == ghost("round"))
+
+// slots that do not belong to one of the first t groups still hold what they held at the head of the round
+//@ pred gohbase.untouched(cAndRs, res, rpcToRes, n, t) = forall(j, 0 <= j && j < n && forall(u, p, 0 <= u && u < t && 0 <= p && p < len(cAndRs[u].rpcs), rpcToRes[cAndRs[u].rpcs[p]] != j), res[j].Msg == athead("for", res[j].Msg) && res[j].Error == athead("for", res[j].Error))
+
+// WORK IN PROGRESS: the round structure below verifies only in part (see /verif/DESIGN.md, C07); the clauses are tagged WIP
+// so that no claimed check depends on them.
+//@ func gohbase.(*client).SendBatch
+//@   requires sleepAndIncreaseBackoffOverride == nil
+//@   requires forall(k, 0 <= k && k < len(batch), batch[k] != nil)
+//@   requires marksBelow()
+//@   panics never[WIP]
+//@   ensures[WIP] len(res) == len(batch)
+//@   ensures[WIP] allOK ==> forall(j, 0 <= j && j < len(res), res[j].Error == nil)
+//@   ensures[WIP] forall(j, 0 <= j && j < len(res), res[j].Error != nil || recvd(old(batch)[j].ResultChan(), res[j]))
+//@   ensures[WIP] (exists(p, q, 0 <= p && p < q && q < len(batch), batch[p] == batch[q])) ==> ghost("queued") == old(ghost("queued")) && !allOK
+//@   loop "for i, rpc := range batch"#1 invariant len(res) == len(batch) && rpcToRes != nil && forall(k, 0 <= k && k < len(batch), batch[k] == old(batch[k]))
+//@   loop "for i, rpc := range batch"#1 invariant forall(k, 0 <= k && k < i, res[k].Error != nil)
+//@   loop "for i, rpc := range batch"#1 invariant ghost("queued") == old(ghost("queued")) && marksBelow()
+//@   loop "for i, rpc := range batch"#1 invariant allOK ==> distinctCalls(batch[:i]) && forall(k, 0 <= k && k < i, haskey(rpcToRes, batch[k]) && rpcToRes[batch[k]] == k)
+//@   loop "for i, rpc := range batch"#1 invariant forall(c, haskey(rpcToRes, c) ==> exists(k, 0 <= k && k < i && batch[k] == c))
+//@   loop "for i, rpc := range batch"#1 invariant (exists(p, q, 0 <= p && p < q && q < i, batch[p] == batch[q])) ==> !allOK
+//@   loop "for" invariant len(res) == len(old(batch)) && rpcToRes != nil && marksBelow() && allocated(batch) && allocated(res)
+//@   loop "for" invariant sbOrig(old(batch), rpcToRes, len(res)) && sbCur(batch, old(batch), rpcToRes, len(res))
+//@   loop "for" invariant sbDone(res, batch, old(batch), rpcToRes, len(res)) && sbOwn(res, old(batch), len(res))
+//@   loop "for" invariant allOK == !unretryableErrorSeen && sbSeen(res, batch, rpcToRes, len(res), unretryableErrorSeen)
+//@   loop "for" invariant len(retries) == 0 && backoff >= 0
+//@   loop "for" step[WIP] forall(j, 0 <= j && j < len(res) && athead("for", res[j].Error) == nil, res[j].Error == nil && res[j].Msg == athead("for", res[j].Msg))
+//@   at call findClients#1 ghost round == ghost("round") + 1
+//@   loop "for i, rpc := range batch"#2 invariant len(res) == len(old(batch)) && sbFrame(res, athead("for", batch), rpcToRes, len(res)) && sbOwn(res, old(batch), len(res))
+//@   loop "for client, rpcs := range rpcByClient" invariant carOK(cAndRs, rpcByClient) && forall(t, 0 <= t && t < len(cAndRs), visited(cAndRs[t].client))
+//@   loop "for client, rpcs := range rpcByClient" invariant forall(rc, visited(rc) ==> exists(t, 0 <= t && t < len(cAndRs) && cAndRs[t].client == rc))
+//@   loop "for _, cAndR := range cAndRs" invariant len(res) == len(old(batch)) && marksBelow()
+//@   loop "for _, cAndR := range cAndRs" invariant sbFrame(res, athead("for", batch), rpcToRes, len(res)) && sbOwn(res, old(batch), len(res))
+//@   loop "for _, cAndR := range cAndRs" invariant doneGroups(cAndRs, res, rpcToRes, idx, allOK) && retriesOK(retries, res, old(batch), rpcToRes, len(res))
+//@   loop "for _, cAndR := range cAndRs" invariant allOK ==> !unretryableErrorSeen && athead("for", allOK)
+//@   loop "for _, cAndR := range cAndRs" invariant athead("for", unretryableErrorSeen) ==> unretryableErrorSeen
+//@   loop "for _, cAndR := range cAndRs" invariant untouched(cAndRs, res, rpcToRes, len(res), idx)
+//@   loop "for _, cAndR := range cAndRs" invariant forall(u, p, idx <= u && u < len(cAndRs) && 0 <= p && p < len(cAndRs[u].rpcs), ghostat("retrymark", cAndRs[u].rpcs[p]) != ghost("round"))
+//@   loop "for _, cAndR := range cAndRs" invariant carOK(cAndRs, rpcByClient) && groupsOK(rpcByClient, athead("for", batch), len(athead("for", batch))) && groupsOrdered(rpcByClient)
+//@   loop "for _, cAndR := range cAndRs" invariant sbOrig(old(batch), rpcToRes, len(res)) && sbCur(athead("for", batch), old(batch), rpcToRes, len(res))
+//@   loop "for _, cAndR := range cAndRs" invariant allocated(res) && allocated(athead("for", batch)) && forall(rc, haskey(rpcByClient, rc) ==> allocated(rpcByClient[rc]) && rc != nil)
